@@ -16,7 +16,12 @@ RULE = ("(a) probe sessions: 4..7 raw clients on a fresh ASan daemon (listeners 
         "header fields 11..255 with random variant payloads and CONTAINER_INSTANCE (field 10, object path), fields in "
         "random order, either byte order, optionally written in pieces; all four message types (METHOD_RETURN / ERROR only "
         "as genuine answers to a delivered call), unicast to unique and well-known names, broadcast, to the driver "
-        "(incl. calls that make the driver broadcast NameOwnerChanged) and method calls without DESTINATION. After the "
+        "(incl. calls that make the driver broadcast NameOwnerChanged) and method calls without DESTINATION. Every session "
+        "also has third-party receivers: 1..2 clients holding eavesdrop='true' match rules and 1..2 connections that called "
+        "Monitoring.BecomeMonitor([],0) (their stream is bounded per step by an end-marker signal of the observer); what "
+        "they are shown (peer traffic, calls to the driver incl. everybody's barriers, bus answers, frames written before "
+        "Hello) is inspected like any other received frame - driver probes, which cannot hold a token, are attributed by "
+        "(true sender, serial, payload). After the "
         "sender's and every client's barrier EVERY frame that ANY client read is inspected: token frames must carry "
         "exactly one SENDER = unique name of the connection that wrote the token; token-less frames must be "
         "bus-originated (answer to a serial of the reader, or a NameOwnerChanged/NameAcquired/NameLost signal) and carry "
@@ -46,13 +51,14 @@ DRIVER_CALLS = [(b"GetId", b"", []), (b"ListNames", b"", []), (b"NameHasOwner", 
 
 class Probe(object):
     __slots__ = ("token", "true_sender", "mtype", "destkind", "forge", "forged", "junk", "container", "receivers",
-                 "registered")
+                 "registered", "data")
 
     def __init__(self, token, true_sender, mtype, destkind, forge, forged, junk, container, registered=True):
         self.token, self.true_sender, self.mtype, self.destkind = token, true_sender, mtype, destkind
         self.forge, self.forged, self.junk, self.container = forge, forged, junk, container
         self.receivers = []
         self.registered = registered
+        self.data = None
 
     def kind(self):
         return "%s:%s" % (TYPE_NAME.get(self.mtype, "?"), self.destkind)
@@ -77,6 +83,11 @@ class Base(object):
         self.ntok = 0
         self.cur_forged = None
         self.everyone_extra = []
+        self.eaves = []                          # registered clients holding eavesdrop='true' rules (third parties)
+        self.monitors = []                       # connections that called BecomeMonitor (read-only third parties)
+        self.byname = {}                         # unique name -> Client, for every first Hello of this history
+        self.by_serial = {}                      # (true sender, serial) -> Probe, for probes whose token is not in the frame
+        self.serial_index = {}                   # serial -> [Probe]
         self.stopped = False
 
     # -- plumbing ------------------------------------------------------------------
@@ -103,7 +114,7 @@ class Base(object):
         if self.stopped:
             return
         self.stopped = True
-        for c in [self.obs] + self.clients + self.everyone_extra:
+        for c in [self.obs] + self.clients + self.everyone_extra + self.eaves + self.monitors:
             if c is not None:
                 c.close()
         if self.daemon is not None:
@@ -150,6 +161,7 @@ class Base(object):
         r = c.wait_reply(serial)
         if r.msg.type == 2 and r.msg.body:
             c.unique = r.msg.body[0]
+            self.byname.setdefault(c.unique, c)
         return r
 
     def connect_registered(self, variant="plain", how="connect"):
@@ -194,38 +206,48 @@ class Base(object):
         m = rec.msg
         k = m.known()
         self.part.count("frames-inspected")
+        role = getattr(c, "role", None)          # None: ordinary receiver; "eavesdropper" / "monitor": third party
+        to = "" if role is None else ":to-" + role
         tok = self.find_token(m)
-        origin = "bus" if tok is None else TYPE_NAME.get(m.type, "type%d" % m.type)
+        senders = [v.value for code, v in m.fields if code == 7]
+        if tok is not None:
+            origin = TYPE_NAME.get(m.type, "type%d" % m.type)
+        elif role is not None and senders != [BUS]:
+            origin = "driver-" + TYPE_NAME.get(m.type, "type%d" % m.type)
+        else:
+            origin = "bus"
         for code, v in m.fields:
             if code == 10:
-                self.violation("container-instance-delivered:%s" % origin,
+                self.violation("container-instance-delivered:%s%s" % (origin, to),
                                "a received frame carries CONTAINER_INSTANCE %r (op %s)" % (v.value, op), {"frame": repr(rec)})
             elif code > 9 or code == 0:
-                self.violation("unknown-field-delivered:%s" % origin,
+                self.violation("unknown-field-delivered:%s%s" % (origin, to),
                                "a received frame carries header field code %d (op %s)" % (code, op), {"frame": repr(rec)})
-        senders = [v.value for code, v in m.fields if code == 7]
+        if role is not None:
+            self.part.count("third-party-frames:" + role)
         if tok is not None:
             p = self.tokens[tok]
             p.receivers.append(c)
             self.part.count("token-frames-checked")
             if not p.registered:
-                self.violation("unregistered-routed:%s" % p.kind(),
+                if role == "monitor":
+                    # a monitor is shown what the bus refused to route; the bus stamps it ':not.active.yet'
+                    self.part.count("prehello-frames-seen-by-monitor")
+                    if senders != [NOT_ACTIVE]:
+                        self.violation("prehello-frame-wrong-sender%s" % to,
+                                       "a monitor saw a frame written before Hello with SENDER %r" % (senders,), {"frame": repr(rec)})
+                    return
+                self.violation("unregistered-routed:%s%s" % (p.kind(), to),
                                "a message written by a connection that never said Hello was delivered to %s"
                                % (c.unique or b"?").decode("latin1"), {"frame": repr(rec)})
                 return
             if m.type != p.mtype:
                 self.violation("token-frame-type-changed", "token frame arrived as type %d, sent as %d" % (m.type, p.mtype),
                                {"frame": repr(rec)})
-            if len(senders) != 1:
-                self.violation("sender-field-count-%d:%s" % (len(senders), p.kind()),
-                               "a routed frame carries %d SENDER fields" % len(senders), {"frame": repr(rec)})
-            elif senders[0] != p.true_sender:
-                cls = "forged-sender-delivered" if (p.forged is not None and senders[0] == p.forged) else "wrong-sender"
-                self.violation("%s:%s:%s" % (cls, p.kind(), p.forge),
-                               "frame written by %s arrived at %s with SENDER %s" % (
-                                   p.true_sender.decode("latin1"), (c.unique or b"?").decode("latin1"),
-                                   senders[0].decode("latin1")), {"frame": repr(rec)})
+            self.check_token_sender(c, rec, p, senders, to)
             return
+        if role is not None:
+            return self.inspect_third_party(c, rec, op, senders, to)
         # no token: must be something the bus itself originated
         self.part.count("bus-frames-checked")
         plausible = False
@@ -256,6 +278,83 @@ class Base(object):
             name, old, new = m.body
             if name.startswith(b":") and old == b"" and new == name:
                 self.minted[name] += 1
+
+    @staticmethod
+    def sent_lookup(conn, serial):
+        """bytes that conn wrote under `serial` (None if it never did)"""
+        mp = getattr(conn, "sent_map", None)
+        if mp is None:
+            mp = conn.sent_map = {}
+            conn.sent_idx = 0
+        while conn.sent_idx < len(conn.sent):
+            _, sr, data = conn.sent[conn.sent_idx]
+            conn.sent_idx += 1
+            if sr is not None:
+                mp[sr] = data
+        return mp.get(serial)
+
+    @staticmethod
+    def same_payload(m, data):
+        if data is None:
+            return False
+        try:
+            o = wire.decode(data)
+        except wire.Invalid:
+            return False
+        ko, km = o.known(), m.known()
+        return o.type == m.type and all(ko.get(f) == km.get(f) for f in (1, 2, 3, 5, 6)) and list(o.body) == list(m.body)
+
+    def check_token_sender(self, c, rec, p, senders, to):
+        if len(senders) != 1:
+            self.violation("sender-field-count-%d:%s%s" % (len(senders), p.kind(), to),
+                           "a routed frame carries %d SENDER fields" % len(senders), {"frame": repr(rec)})
+        elif senders[0] != p.true_sender:
+            cls = "forged-sender-delivered" if (p.forged is not None and senders[0] == p.forged) else "wrong-sender"
+            self.violation("%s:%s:%s%s" % (cls, p.kind(), p.forge, to),
+                           "frame written by %s arrived at %s with SENDER %s" % (
+                               p.true_sender.decode("latin1"), (c.unique or b"?").decode("latin1"),
+                               senders[0].decode("latin1")), {"frame": repr(rec)})
+
+    def inspect_third_party(self, c, rec, op, senders, to):
+        """A frame without token read by an eavesdropper or a monitor: either bus-originated traffic for somebody, or
+        a call some connection made to the driver (barriers, AddMatch, Hello, ... and the driver probes, whose fixed
+        arguments leave no room for a token: those are attributed by (true sender, serial))."""
+        m = rec.msg
+        role = c.role
+        if senders == [BUS]:
+            self.part.count("bus-frames-checked")
+            return
+        if len(senders) != 1:
+            self.violation("sender-field-count-%d:driver-%s%s" % (len(senders), TYPE_NAME.get(m.type, "other"), to),
+                           "a %s saw a client frame with %d SENDER fields (op %s)" % (role, len(senders), op), {"frame": repr(rec)})
+            return
+        claimed = senders[0]
+        p = self.by_serial.get((claimed, m.serial))
+        if p is not None and self.same_payload(m, p.data):
+            p.receivers.append(c)
+            self.part.count("driver-probes-seen-by:" + role)
+            if p.junk or p.container:
+                self.part.count("junk-driver-probes-seen-by:" + role)
+            return
+        # ordinary harness traffic towards the driver: the claimed sender is a connection of this history that really
+        # wrote this payload under this serial
+        conn = self.byname.get(claimed)
+        if conn is not None and self.same_payload(m, self.sent_lookup(conn, m.serial)):
+            self.part.count("harness-calls-seen-by:" + role)
+            return
+        for q in self.serial_index.get(m.serial, ()):
+            if q.true_sender != claimed and self.same_payload(m, q.data):
+                cls = "forged-sender-delivered" if q.forged == claimed else "wrong-sender"
+                self.violation("%s:%s:%s%s" % (cls, q.kind(), q.forge, to),
+                               "a %s saw the frame written by %s with SENDER %s"
+                               % (role, q.true_sender.decode("latin1"), claimed.decode("latin1")), {"frame": repr(rec)})
+                return
+        if claimed == NOT_ACTIVE and m.type == 1:
+            self.part.count("prehello-frames-seen-by-" + role)
+            return
+        self.violation("wrong-sender:driver-%s%s" % (TYPE_NAME.get(m.type, "other"), to),
+                       "a %s saw a frame with SENDER %s serial %d that no connection of this history wrote (op %s)"
+                       % (role, claimed.decode("latin1"), m.serial, op), {"frame": repr(rec)})
 
     @staticmethod
     def describe(m):
@@ -296,7 +395,49 @@ class Session(Base):
         self.nsent = 0
 
     def everyone(self):
-        return [self.obs] + self.clients
+        return [self.obs] + self.eaves + self.clients
+
+    def add_eavesdropper(self, rule):
+        c = self.connect_registered("plain", "eavesdropper")
+        if c is None:
+            raise RuntimeError("eavesdropper could not register")
+        r = c.bus_call(b"AddMatch", b"s", [rule])
+        if r.msg.type != 2:
+            raise RuntimeError("AddMatch(%r) refused: %r" % (rule, r))
+        c.role = "eavesdropper"
+        self.eaves.append(c)
+        self.step("third party %s: AddMatch %s" % (c.unique.decode(), rule.decode()))
+
+    def add_monitor(self):
+        c = self.connect_registered("plain", "monitor")
+        if c is None:
+            raise RuntimeError("monitor could not register")
+        r = c.call(BUS, BUS_PATH, b"org.freedesktop.DBus.Monitoring", b"BecomeMonitor", b"asu", [[], 0])
+        if r.msg.type != 2:
+            raise RuntimeError("BecomeMonitor refused: %r" % (r,))
+        c.role = "monitor"
+        self.wait_gone(c.unique)       # a monitor gives up its unique name
+        self.monitors.append(c)
+        self.step("third party %s: BecomeMonitor([], 0)" % c.unique.decode())
+
+    def drain_monitors(self, op):
+        """Bound every monitor's stream with an end-marker signal written by the observer AFTER all barriers of the
+        step, then inspect everything the monitors were shown."""
+        if not self.monitors:
+            return
+        token = self.new_token()
+        self.tokens[token] = Probe(token, self.obs.unique, 4, "marker", "none", None, 0, False)
+        self.obs.signal(b"/com/verif/marker", b"com.verif.Marker", b"End", b"s", [token])
+        self.obs.barrier()
+        for mon in self.monitors:
+            pos = getattr(mon, "insp", 0)
+            while True:
+                if any(r.msg.type == 4 and r.msg.body and r.msg.body[0] == token for r in mon.log[pos:]):
+                    break
+                pos = len(mon.log)
+                mon.recv(timeout=client.WATCHDOG)
+            self.inspect_new(mon, op)
+        self.inspect_new(self.obs, op)
 
     def add_client(self, variant="plain", how="connect"):
         c = self.connect_registered(variant, how)
@@ -322,6 +463,15 @@ class Session(Base):
         if self.obs is None:
             raise RuntimeError("observer could not register")
         self.obs.bus_call(b"AddMatch", b"s", [b"type='signal'"])
+        # third parties: they are shown traffic that is not addressed to them
+        self.add_eavesdropper(b"eavesdrop='true'")
+        if self.rng.random() < 0.4:
+            self.add_eavesdropper(self.rng.choice([b"eavesdrop='true',type='method_call'", b"eavesdrop='true',type='signal'",
+                                                   b"eavesdrop='true',destination='org.freedesktop.DBus'",
+                                                   b"eavesdrop='true',type='error'"]))
+        self.add_monitor()
+        if self.rng.random() < 0.25:
+            self.add_monitor()
         for _ in range(self.rng.randint(4, 6)):
             self.add_client(self.rng.choice(["plain", "plain", "forged", "big-endian"]))
         self.collect(None, "setup")
@@ -334,6 +484,7 @@ class Session(Base):
             c.barrier()
         for c in self.everyone() + list(extra):
             self.inspect_new(c, op)
+        self.drain_monitors(op)
         self.check_minted(op)
 
     # -- building forged messages -----------------------------------------------------
@@ -436,10 +587,14 @@ class Session(Base):
 
     def account(self, p, op):
         part = self.part
-        n = len(p.receivers)
+        n = sum(1 for c in p.receivers if getattr(c, "role", None) is None)
         part.count("probes")
         part.count("probe:" + p.kind())
         part.sig(op, p.mtype, p.destkind, p.forge, min(p.junk, 2), p.container, n > 0)
+        for role in set(getattr(c, "role", None) for c in p.receivers) - {None}:
+            part.count("probes-seen-by:" + role)
+            if p.junk or p.container:
+                part.count("junk-probes-seen-by:" + role)
         if n:
             part.count("received:" + TYPE_NAME[p.mtype])
             if p.forged is not None and p.forged != p.true_sender:
@@ -546,6 +701,9 @@ class Session(Base):
             raise RuntimeError("generator produced an invalid driver call")
         p = Probe(token, s.unique, 1, "driver", fk, fv, sum(1 for c_, _ in junk if c_ > 10), any(c_ == 10 for c_, _ in junk))
         self.tokens[token] = p
+        p.data = data
+        self.by_serial[(s.unique, serial)] = p
+        self.serial_index.setdefault(serial, []).append(p)
         return serial, data, p
 
     def op_driver_effect(self, s):
@@ -995,6 +1153,10 @@ def run(tier, seed, replay=None, scale=1.0):
     for t in ("call", "return", "error", "signal"):
         r.require("received:" + t, need(100))
     r.require("driver-answers-checked", need(200))
+    for role in ("eavesdropper", "monitor"):
+        r.require("third-party-frames:" + role, need(20000))
+        r.require("junk-probes-seen-by:" + role, need(800))
+        r.require("junk-driver-probes-seen-by:" + role, need(150))
     r.require("names-issued", need(1200))
     r.require("op:second-hello", need(40))
     r.require("op:prehello", need(40))
@@ -1004,5 +1166,7 @@ def run(tier, seed, replay=None, scale=1.0):
                      "whether a connection that wrote before Hello is disconnected is recorded, not judged: the statement only "
                      "requires that nothing it wrote is routed",
                      "header fields the bus itself adds: none in this configuration (no containers), so every code > 9 is foreign",
-                     "frames are attributed by a token chosen by the check, never by the SENDER they carry"]
+                     "frames are attributed by a token chosen by the check, never by the SENDER they carry",
+                     "a frame written before Hello that a MONITOR is shown must carry the bus's placeholder ':not.active.yet' "
+                     "(the writer has no unique name); any ordinary client or eavesdropper receiving it is a violation"]
     return r.finish()
